@@ -115,6 +115,7 @@ CHECKS['C09'] = dict(
         dict(name='cadence', spec=_TBL, args=['cadence']),
         dict(name='length', spec=_TBL, args=['length']),
         dict(name='struct', spec=_TBL, args=['struct']),
+        dict(name='cross4g', spec=H('h_table.c', 'fast'), args=['cross4g'], shards=1, tiers=['thorough']),
     ],
     states_key='cases', transitions_key='transitions', traces_key='cases',
     rule='as C01', bounds=_tbl_bounds,
